@@ -1,10 +1,11 @@
 /-
   Driver.Order — line protocol of the `order` / `orderstart` sub-harnesses (C12).
 
-  participant token:  [i] (p<k> | o<k> | n | q) markers*
+  participant token:  [i|s] (p<k> | o<k> | n | q) markers*
       p<k>  priority-ordered, Order() = k (signed decimal, int64 range)     o<k>  ordered only
       n     neither interface                                               q     Priority() without Order()  (→ plain)
       i     (processors) InstantiationAware
+      s     (processors) SmartInstantiationAware (InstantiationAware + GetEarlyBeanReference)
       markers   loaders:    !  LoadConfig fails      +  non-empty config      *  non-empty config that SetConfig rejects
                 runners:    !  Run fails
                 processors: !  Before… fails   ?  Before… returns nil   ^  After… fails   ~  After… returns nil
@@ -13,6 +14,11 @@
         `S L tok* P tok* R tok*`          → one start with a probe component:
                `L:… B:… I:… P:… A:… R:… E:ok|err`   (LoadConfig, SetConfig, AfterInstantiation, BeforeInit, AfterInit, Run logs)
                plain participants print as `n<id>` for loaders (registration order is defined) and `n` otherwise
+        `SC L tok* P tok* R tok*`         → the same start with the probe in a circular reference (one early-reference request):
+               `L:… B:… I:… P:… A:… R:… G:… E:ok|err`   (G = GetEarlyBeanReference log of the smart processors)
+        `Q op (/ op)*`,  op = `S tok*` (SetLoaders) | `A tok*` (AddLoaders) | `I` (Initialize)
+                                          → one `L:… B:… E:ok|err` per Initialize, joined by ` | `  (`-` when there is none);
+               loader ids run over the whole line
   Tie order inside a (class, key) group is never printed, so Go's unstable sort.Slice and `isort` agree.
 -/
 import Ioc.Order
@@ -23,23 +29,25 @@ structure Tok where
   part : Part
   id : Nat
   inst : Bool := false
+  smart : Bool := false
   marks : List Char := []
 
 def parseTok (s : String) (id : Nat) : Option Tok :=
   let cs := s.toList
-  let (inst, cs) := match cs with
-    | 'i' :: r => (true, r)
-    | _ => (false, cs)
+  let (inst, smart, cs) := match cs with
+    | 'i' :: r => (true, false, r)
+    | 's' :: r => (true, true, r)
+    | _ => (false, false, cs)
   match cs with
   | [] => none
   | c :: rest =>
     let ks := rest.takeWhile (fun ch => ch.isDigit || ch == '-')
     let ms := rest.dropWhile (fun ch => ch.isDigit || ch == '-')
     if c == 'n' || c == 'q' then
-      if ks.isEmpty then some { part := Part.ofIfaces none (c == 'q'), id := id, inst := inst, marks := ms } else none
+      if ks.isEmpty then some { part := Part.ofIfaces none (c == 'q'), id := id, inst := inst, smart := smart, marks := ms } else none
     else if c == 'p' || c == 'o' then
       match (String.ofList ks).toInt? with
-      | some k => some { part := Part.ofIfaces (some k) (c == 'p'), id := id, inst := inst, marks := ms }
+      | some k => some { part := Part.ofIfaces (some k) (c == 'p'), id := id, inst := inst, smart := smart, marks := ms }
       | none => none
     else none
 
@@ -87,8 +95,55 @@ def sections (ws : List String) : Option (List String × List String × List Str
     | _ => none
   | _ => none
 
+/-- `Q` lines: split at `/`, parse each step; loader ids run over the whole line -/
+def parseOps : List (List String) → Nat → Option (List (ConfOp Tok))
+  | [], _ => some []
+  | seg :: rest, i =>
+    match seg with
+    | ["I"] => (parseOps rest i).map (ConfOp.init :: ·)
+    | "S" :: ws =>
+      match parseToks ws i, parseOps rest (i + ws.length) with
+      | some ts, some os => if ts.any (·.inst) then none else some (ConfOp.set ts :: os)
+      | _, _ => none
+    | "A" :: ws =>
+      match parseToks ws i, parseOps rest (i + ws.length) with
+      | some ts, some os => if ts.any (·.inst) then none else some (ConfOp.add ts :: os)
+      | _, _ => none
+    | _ => none
+
+def splitSlash (ws : List String) : List (List String) :=
+  ws.foldr (fun w acc => if w == "/" then [] :: acc else
+    match acc with
+    | [] => [[w]]
+    | a :: as => (w :: a) :: as) [[]]
+
+def showStart (cyc : Bool) (g : StartLog Tok) : String :=
+  "L:" ++ showList "," true (firsts g.loads) ++ " B:" ++ showList "," true (seconds g.loads) ++
+  " I:" ++ showList "," false (firsts g.inst) ++ " P:" ++ showList "," false g.before ++
+  " A:" ++ showList "," false g.after ++ " R:" ++ showList "," false g.runs ++
+  (if cyc then " G:" ++ showList "," false g.early else "") ++
+  " E:" ++ (if g.err then "err" else "ok")
+
 def handle (line : String) : String :=
   match (line.splitOn " ").filter (· != "") with
+  | "Q" :: ws =>
+    match parseOps (splitSlash ws) 0 with
+    | some ops =>
+      let rs := confRun theSort Tok.part loadRes ops []
+      if rs.isEmpty then "-" else
+      joinWith " | " (rs.map fun r =>
+        "L:" ++ showList "," true (firsts r.1) ++ " B:" ++ showList "," true (seconds r.1) ++
+        " E:" ++ (if r.2 then "err" else "ok"))
+    | none => "bad-line"
+  | "SC" :: ws =>
+    match sections ws with
+    | some (ls, ps, rs) =>
+      match parseToks ls 0, parseToks ps 0, parseToks rs 0 with
+      | some l, some p, some r =>
+        showStart true (startC theSort Tok.part loadRes (fun t => some t) Tok.inst (fun _ => .skip)
+                   beforeCb afterCb (fun t => t.marks.contains '!') true Tok.smart (fun _ _ => some ()) l p r)
+      | _, _, _ => "bad-line"
+    | none => "bad-line"
   | "D" :: toks =>
     match parseToks toks 0 with
     | some ts => showList " " true (sortOrdered theSort Tok.part ts)
@@ -98,12 +153,8 @@ def handle (line : String) : String :=
     | some (ls, ps, rs) =>
       match parseToks ls 0, parseToks ps 0, parseToks rs 0 with
       | some l, some p, some r =>
-        let g := start theSort Tok.part loadRes (fun t => some t) Tok.inst (fun _ => .skip)
-                   beforeCb afterCb (fun t => t.marks.contains '!') l p r
-        "L:" ++ showList "," true (firsts g.loads) ++ " B:" ++ showList "," true (seconds g.loads) ++
-        " I:" ++ showList "," false (firsts g.inst) ++ " P:" ++ showList "," false g.before ++
-        " A:" ++ showList "," false g.after ++ " R:" ++ showList "," false g.runs ++
-        " E:" ++ (if g.err then "err" else "ok")
+        showStart false (start theSort Tok.part loadRes (fun t => some t) Tok.inst (fun _ => .skip)
+                   beforeCb afterCb (fun t => t.marks.contains '!') l p r)
       | _, _, _ => "bad-line"
     | none => "bad-line"
   | _ => "bad-line"
